@@ -504,7 +504,7 @@ const SYNTHETIC: &[&str] = &[
     "n0", "n1", "n2", "n3", "n4", "n5", "n6", "n7", "n8", "n9", "n10", "n11", "n12", "n13", "n14", "n15", "n16", "n17", "n18", "n19",
     "n20", "n21", "n22", "n23", "n24", "n25", "n26", "n27", "n28", "n29", "n30", "n31", "n32", "n33", "n34", "n35", "n36", "n37", "n38", "n39",
     "n40", "n41", "n42", "n43", "n44", "n45", "n46", "n47", "n48", "n49", "n50", "n51", "n52", "n53", "n54", "n55", "n56", "n57", "n58", "n59",
-    "n1a", "n1_note", "n2b", "line2", "line10", "line1a", "item2", "item10", "item1x", "n60", "n61", "n62", "n63", "n64", "n65", "n66", "n67", "n68", "n69", "n255", "n256", "n257", "n65535", "n65536",
+    "row18446744073709551616", "k99999999999999999999999", "n340282366920938463463374607431768211456", "n1a", "n1_note", "n2b", "line2", "line10", "line1a", "item2", "item10", "item1x", "n60", "n61", "n62", "n63", "n64", "n65", "n66", "n67", "n68", "n69", "n255", "n256", "n257", "n65535", "n65536",
     "aVeryLongElementNameThatGoesOnAndOnAndOnAndOnAndOnAndOnAndOnAndOnAndOnAndOnAndOnAndOnAndOnAndOnAndOnAndOnAndOnAndOnAndOnAndOn",
     "another_very_long_name_with_underscores_that_is_longer_than_sixty_four_bytes_for_sure_and_then_some_more_to_pass_128_bytes_in_total_length_ok",
     "x-y-z-x-y-z-x-y-z-x-y-z-x-y-z-x-y-z-x-y-z-x-y-z-x-y-z-x-y-z-x-y-z-x-y-z-x-y-z-x-y-z-x-y-z-x-y-z-x-y-z-x-y-z-x-y-z-x-y-z-x-y-z-x-y-z-x-y-z-x-y-z-x-y-z-x-y-z-x-y-z-x-y-z-x-y-z-x-y-z-x-y-z-x-y-z-x-y-z-x-y-z-x-y-z-x-y-z-x-y-z-x-y-z-x-y-z",
